@@ -832,14 +832,9 @@ func (h *HttpServer) handleExchangeCall(ctx context.Context, w http.ResponseWrit
 				// per-emit key of the same name would shadow the token and
 				// the client would lose the stream. The token wins, as in
 				// Python's dict merge.
-				emitKeys, emitValues := ab.meta.Keys(), ab.meta.Values()
-				for j, k := range emitKeys {
-					if k == MetaStreamState {
-						continue
-					}
-					keys = append(keys, k)
-					values = append(values, emitValues[j])
-				}
+				emitMeta := stripTokenKeysFromEmitMetadata(*ab.meta)
+				keys = append(keys, emitMeta.Keys()...)
+				values = append(values, emitMeta.Values()...)
 			}
 			keys = append(keys, MetaStreamState)
 			values = append(values, string(newToken))
@@ -1040,6 +1035,25 @@ func stripFrameworkTickMetadata(meta arrow.Metadata) arrow.Metadata {
 	return arrow.NewMetadata(keys, values)
 }
 
+// stripTokenKeysFromEmitMetadata returns a data batch's per-emit metadata
+// without the HTTP transport's two token keys, preserving the order of the
+// rest. Those keys are how a client locates the cursor and the call token in
+// a response; an entry a handler put there itself would shadow or pose as a
+// token over HTTP while being plain metadata over a pipe.
+func stripTokenKeysFromEmitMetadata(meta arrow.Metadata) arrow.Metadata {
+	srcKeys, srcValues := meta.Keys(), meta.Values()
+	keys := make([]string, 0, len(srcKeys))
+	values := make([]string, 0, len(srcValues))
+	for i, k := range srcKeys {
+		if k == MetaStreamState || k == MetaCallState {
+			continue
+		}
+		keys = append(keys, k)
+		values = append(values, srcValues[i])
+	}
+	return arrow.NewMetadata(keys, values)
+}
+
 // runProduceLoop runs the producer state machine until completion or the batch
 // limit is reached. Returns (true, nil) when the producer has finished,
 // (false, nil) when the batch limit was reached (caller should emit a
@@ -1159,8 +1173,13 @@ func (h *HttpServer) runProduceLoopSized(ctx context.Context, writer *ipc.Writer
 				toWrite := ab.batch
 				owned := false
 				if ab.meta != nil {
+					// A client finds its continuation tokens by these keys on
+					// any batch of the response, so a producer's own per-emit
+					// entry of that name would be taken for a token (and over a
+					// pipe it would not): the transport's token keys are not
+					// the handler's to set.
 					toWrite = array.NewRecordBatchWithMetadata(
-						schema, ab.batch.Columns(), ab.batch.NumRows(), *ab.meta)
+						schema, ab.batch.Columns(), ab.batch.NumRows(), stripTokenKeysFromEmitMetadata(*ab.meta))
 					owned = true
 				}
 				if extBatch, rawBytes, replaced := h.externalizeStreamDataBatch(ctx, toWrite); replaced {
